@@ -288,9 +288,14 @@ func runC09(e *Engine, g G, o RunOpt) RunInfo {
 				gotH = append(gotH, h)
 			}
 			if el.Is(nsSM, "resume") && ci > 0 {
-				h, _ := strconv.Atoi(el.Attr("h"))
+				h, herr := strconv.Atoi(el.Attr("h"))
 				checked++
 				want := resumeH[ci-1]
+				if herr != nil {
+					// XEP-0198 5: the count is a required attribute of <resume/>, also when it is zero
+					e.Violate("C09", "resume-without-h", "connection #%d: <resume/> reports h=%q; %d stanzas were received on the session", ci, el.Attr("h"), want)
+					continue
+				}
 				if h != want {
 					e.Violate("C09", "resume-h-"+cmp3(h, want), "connection #%d: <resume h='%d'/> but %d stanzas were completely received on the session before the loss", ci, h, want)
 				}
